@@ -683,6 +683,7 @@ func (s *Store) rollback(ns walletdb.ReadWriteBucket, height int32) error {
 				// may have already been removed from a
 				// previously removed transaction record in
 				// this rollback.
+				credExists := existsRawCredit(ns, credKey) != nil
 				var amt btcutil.Amount
 				amt, err = unspendRawCredit(ns, credKey)
 				if err != nil {
@@ -693,11 +694,11 @@ func (s *Store) rollback(ns walletdb.ReadWriteBucket, height int32) error {
 					return err
 				}
 
-				// If the credit was previously removed in the
-				// rollback, the credit amount is zero.  Only
-				// mark the previously spent credit as unspent
-				// if it still exists.
-				if amt == 0 {
+				// Only mark the previously spent credit as
+				// unspent if it still exists.  A zero amount
+				// does not tell: the credit itself may be
+				// worth zero.
+				if !credExists {
 					continue
 				}
 				unspentVal, err := fetchRawCreditUnspentValue(credKey)
